@@ -1,9 +1,14 @@
 /- Driver for C13: the real qmail-local main() (harness/c13_local.c) vs `Nq.Local.run`; oracle = the documented
    behaviour `Nq.LocalSpec` evaluated on the implementation's outputs.
-   Input lines: `<doit> <blob> <exit> <stdout> <stderr> <opened> <events> <env> <stats> <files>` (see the harness header). -/
+   Input lines: `<doit> <blob> <exit> <stdout> <stderr> <opened> <events> <env> <stats> <files> <aux> <fenv> <cenv>` (see the
+   harness header).  `fenv` / `cenv` (the real `environ` of the main process after the run / of the first command child at its
+   execv) are compared variable by variable with `Nq.LocalEnv.commandEnv` (DISAGREE) and judged by `Nq.LocalEnvSpec.check` and
+   `uflineOracle` (ORACLE). -/
 import Drv.Util
 import Nq.Local
 import Nq.Spec.LocalSpec
+import Nq.LocalEnv
+import Nq.Spec.LocalEnvSpec
 
 open Nq Nq.Local Drv
 
@@ -204,15 +209,20 @@ def stage (r : Result) : Nat :=
   | some .looping => 1
   | _ => if r.ueo.isSome then 3 else 2
 
-def envExpect (c : Case) (r : Result) : List (Option Bytes × Bool) :=  -- (value, compare-as-prefix)
+def envExpect (c : Case) (r : Result) (inh : List (Bytes × Bytes)) : List (Option Bytes × Bool) :=  -- (value, compare-as-prefix)
   let st := stage r
   let on (k : Nat) (v : Bytes) : Option Bytes := if st ≥ k then some v else none
   let e2 := afterDash c.ext; let e3 := afterDash e2; let e4 := afterDash e3
   let h2 := beforeLastDot c.host; let h3 := beforeLastDot h2; let h4 := beforeLastDot h3
-  [ (if st ≥ 2 then r.dfltEnv else none, false), (if st ≥ 3 then r.ueo else none, false),
-    (on 1 (dtline c.loc c.host), false), (on 2 (rpline c.sender), false), (on 2 (uflinePrefix c.sender), true),
-    (on 2 e2, false), (on 2 e3, false), (on 2 e4, false), (on 2 h2, false), (on 2 h3, false), (on 2 h4, false),
-    (on 1 (envrecip c.loc c.host), false) ]
+  let l : List (String × Option Bytes × Bool) :=
+  [ ("DEFAULT", if st ≥ 2 then r.dfltEnv else none, false), ("NEWSENDER", if st ≥ 3 then r.ueo else none, false),
+    ("DTLINE", on 1 (dtline c.loc c.host), false), ("RPLINE", on 2 (rpline c.sender), false), ("UFLINE", on 2 (uflinePrefix c.sender), true),
+    ("EXT2", on 2 e2, false), ("EXT3", on 2 e3, false), ("EXT4", on 2 e4, false), ("HOST2", on 2 h2, false), ("HOST3", on 2 h3, false),
+    ("HOST4", on 2 h4, false), ("RECIPIENT", on 1 (envrecip c.loc c.host), false) ]
+  -- a variable the program has not (yet) put keeps its inherited value
+  l.map (fun (n, v, pre) => match v with
+    | some x => (some x, pre)
+    | none => (LocalEnvSpec.lookupEnv inh (str n), false))
 
 def envAgree (exp : List (Option Bytes × Bool)) (got : List String) : Bool :=
   exp.length == got.length && (exp.zip got).all (fun (e, g) =>
@@ -268,7 +278,8 @@ def eventFile (ev : String) : Option String :=
 /-- returns the names of the violated clauses: `LocalSpec.outcome` (the predicate of `C13_run_outcome`) and the
 search / confinement / owner-name / header-line predicates, all evaluated on the implementation's output -/
 def oracle (c : Case) (exit : Int) (out err : Bytes) (opens : String) (events : String) (env : List String)
-    (stats : String) (files : String) : List String := Id.run do
+    (stats : String) (files : String) (inh : List (Bytes × Bytes)) : List String := Id.run do
+  let inhDefault := LocalEnvSpec.lookupEnv inh [68, 69, 70, 65, 85, 76, 84]
   let mut bad : List String := []
   let quiet := events == "-" && files == "-" &&
     !(isInfix (str "mbox ") out || isInfix (str "maildir ") out || isInfix (str "program ") out || isInfix (str "forward ") out)
@@ -277,7 +288,7 @@ def oracle (c : Case) (exit : Int) (out err : Bytes) (opens : String) (events : 
     match env[i]? with
     | some g => if g != "!" then
         match unhex g with
-        | some b => if !LocalSpec.oneLine b then bad := s!"noinject:{nm}" :: bad
+        | some b => if !LocalSpec.oneLine b && LocalEnvSpec.lookupEnv inh (str nm) != some b then bad := s!"noinject:{nm}" :: bad
         | none => pure ()
     | none => pure ()
   -- every file that appeared or changed in the home directory is explained by an observed delivery event
@@ -327,8 +338,8 @@ def oracle (c : Case) (exit : Int) (out err : Bytes) (opens : String) (events : 
       -- $DEFAULT as documented (only once the environment is complete: NEWSENDER set)
       if (env[1]?).getD "!" != "!" then
         let wantD : Option Bytes := match LocalSpec.control S.look cands with
-          | some (n, _) => LocalSpec.defaultVar c.dash c.ext n
-          | none => none
+          | some (n, _) => (match LocalSpec.defaultVar c.dash c.ext n with | some d => some d | none => inhDefault)
+          | none => inhDefault    -- not set by qmail-local: an inherited value stays (LocalEnvSpec, C13_env_documented)
         let gotD : Option Bytes := match env[0]? with
           | some g => if g == "!" then none else unhex g
           | none => none
@@ -346,15 +357,72 @@ def oracle (c : Case) (exit : Int) (out err : Bytes) (opens : String) (events : 
         bad := "dispatch:unexpected-file" :: bad
       return bad
 
+/-! ### the environment handed to commands -/
+
+structure Aux where
+  now : Nat
+  user : Bytes
+  home : Bytes
+  inherited : List (Bytes × Bytes)
+
+def splitEq (b : Bytes) : Bytes × Bytes := (b.takeWhile (· != 61), (b.dropWhile (· != 61)).drop 1)
+
+def parseEnvList (sep : String) (l : String) : Option (List (Bytes × Bytes)) :=
+  if l == "-" then some [] else (l.splitOn sep).foldr (fun s acc => match acc, (if s == "-" then some [] else unhex s) with
+    | some l, some b => some (splitEq b :: l) | _, _ => none) (some [])
+
+def parseAux (a : String) : Option Aux :=
+  match a.splitOn ":" with
+  | [t, u, h, inh] =>
+    match t.toNat?, unhex u, unhex h, parseEnvList ";" inh with
+    | some t, some u, some h, some inh => some { now := t, user := u, home := h, inherited := inh }
+    | _, _, _, _ => none
+  | _ => none
+
+def leBytes : Bytes → Bytes → Bool
+  | [], _ => true
+  | _ :: _, [] => false
+  | a :: r, b :: s => a < b || (a == b && leBytes r s)
+
+def envKey (p : Bytes × Bytes) : Bytes := p.1 ++ [61] ++ p.2
+def sortEnv (e : List (Bytes × Bytes)) : List Bytes := ((e.map envKey).toArray.qsort (fun a b => leBytes a b && a != b)).toList
+
+def envShow (e : List (Bytes × Bytes)) : String := if e.isEmpty then "-" else ",".intercalate (e.map (fun p => hex (envKey p)))
+
+/-- the documentation's view (`Nq.LocalEnvSpec.Given`) of a case whose command environment `env` was observed: DEFAULT from the
+documented control-file search, NEWSENDER from the documented -owner rule, the date from the calendar search -/
+def envOracle (c : Case) (hm : Nat) (ax : Aux) (env : List (Bytes × Bytes)) (tag : String) : List String :=
+  let S := settingOfCase c hm
+  let cands := LocalSpec.candidates c.dash c.ext
+  let dflt : Option Bytes := match LocalSpec.control S.look cands with
+    | some (n, _) => LocalSpec.defaultVar c.dash c.ext n
+    | none => none
+  match LocalSpec.senderFor S, LocalEnvSpec.civilSearch ax.now with
+  | some ns, some (y, m, d) =>
+    let g : LocalEnvSpec.Given := { user := ax.user, home := ax.home, loc := c.loc, ext := c.ext, host := c.host, sender := c.sender,
+                                    now := ax.now, date := (y, m, d), dflt := dflt, newsender := ns }
+    let bad := (LocalEnvSpec.check g ax.inherited env).map (fun k => s!"{tag}:{String.fromUTF8! (ByteArray.mk k.toArray)}")
+    let uf := match LocalEnvSpec.lookupEnv env [85, 70, 76, 73, 78, 69] with
+      | some l => if LocalEnvSpec.uflineOracle c.sender ax.now l then [] else [s!"{tag}:UFLINE-date"]
+      | none => [s!"{tag}:UFLINE-unset"]
+    let lineVars : List (Bytes × String) := [([68, 84, 76, 73, 78, 69], "DTLINE"), ([82, 80, 76, 73, 78, 69], "RPLINE"), ([85, 70, 76, 73, 78, 69], "UFLINE")]
+    let lines := lineVars.filterMap
+      (fun (p : Bytes × String) => match LocalEnvSpec.lookupEnv env p.1 with
+        | some l => if LocalSpec.oneLine l then none else some s!"{tag}:{p.2}-lines"
+        | none => none)
+    bad ++ uf ++ lines
+  | none, _ => [s!"{tag}:command-without-sender"]
+  | _, none => [s!"{tag}:date-search"]
+
 def handle (st : Stats) (line : String) : IO Stats := do
   match fields line with
   | [doitS, blob, "SKIP"] =>
     let _ := (doitS, blob)
     return (st.bump "skipped")
-  | [doitS, blob, exitS, outH, errH, opens, events, envS, statsS, filesS] =>
+  | [doitS, blob, exitS, outH, errH, opens, events, envS, statsS, filesS, auxS, fenvS, cenvS] =>
     let doit := doitS == "1"
-    match parseBlob doit blob, unhex outH, unhex errH, exitS.toInt? with
-    | some c, some out, some err, some exit =>
+    match parseBlob doit blob, unhex outH, unhex errH, exitS.toInt?, parseAux auxS, parseEnvList "," fenvS, parseEnvList "," cenvS with
+    | some c, some out, some err, some exit, some ax, some fenv, some cenv =>
       let h := hashBytes (blob.toUTF8.toList ++ [if doit then 1 else 0])
       let fresh := !st.seen.contains h
       let r := run (argsOf c) (worldOf c)
@@ -384,12 +452,43 @@ def handle (st : Stats) (line : String) : IO Stats := do
       if opens != hexList r.tried then diffs := s!"opened(model {hexList r.tried})" :: diffs
       if statsS != hexList r.stats then diffs := s!"stats(model {hexList r.stats})" :: diffs
       if events != effsStr dt c.msg r.effects then diffs := s!"events(model {effsStr dt c.msg r.effects})" :: diffs
-      if !envAgree (envExpect c r) envL then diffs := "env" :: diffs
+      if !envAgree (envExpect c r ax.inherited) envL then diffs := "env" :: diffs
+      -- the whole environment: of the main process once NEWSENDER is put, and of the first command child
+      let menv := Nq.LocalEnv.commandEnv ax.inherited (argsOf c) (worldOf c) ax.user ax.home ax.now
+      let hasChild := cenvS != "-"
+      match menv with
+      | some me =>
+        st := st.bump "env:main-compared"
+        if sortEnv fenv != sortEnv me then diffs := s!"fenv(model {envShow me})" :: diffs
+        if hasChild then
+          st := st.bump "env:child-compared"
+          if sortEnv cenv != sortEnv me then diffs := s!"cenv(model {envShow me})" :: diffs
+      | none => if hasChild then diffs := "cenv(model: no command can run)" :: diffs
+      if !ax.inherited.isEmpty then st := st.bump "env:inherited"
+      if (LocalEnvSpec.lookupEnv ax.inherited [68, 69, 70, 65, 85, 76, 84]).isSome then
+        st := st.bump (if r.dfltEnv.isSome then "env:inherited-DEFAULT-overwritten" else "env:inherited-DEFAULT-kept")
+      -- evidence for the observation in notes/C13.md: a command child that sees an inherited DEFAULT although no -default file matched
+      if hasChild && r.dfltEnv.isNone && (LocalEnvSpec.lookupEnv cenv [68, 69, 70, 65, 85, 76, 84]).isSome &&
+          !(st.counters.any (fun p => p.1 == "env:sample-stale-DEFAULT")) then
+        st := st.bump "env:sample-stale-DEFAULT"
+        IO.println s!"SAMPLE stale-DEFAULT in={blob} doit={doitS} aux={auxS} child_environ={cenvS}"
+      if menv.isSome then
+        st := st.bump (if r.dfltEnv.isSome then "env:DEFAULT-set" else "env:DEFAULT-unset")
+        st := st.bump (if ax.now ≥ 2147483648 then "env:clock>2038" else "env:clock<=2038")
+        st := st.bump s!"env:dashes{min 4 (c.ext.count 45)}"
+        st := st.bump s!"env:dots{min 4 (c.host.count 46)}"
       if !diffs.isEmpty then
         IO.println s!"DISAGREE in={blob} doit={doitS} what={",".intercalate diffs.reverse |>.replace " " "_"} impl_exit={exitS} impl_out={outH} impl_err={errH} impl_opened={opens} impl_events={events} impl_env={envS} impl_stats={statsS} impl_files={filesS}"
         st := { st with disagree := st.disagree + 1 }
       -- property oracle on the implementation's behaviour
-      let bad := oracle c exit out err opens events envL statsS filesS
+      let mut bad := oracle c exit out err opens events envL statsS filesS ax.inherited
+      match c.home with
+      | some hm =>
+        if hasChild then bad := (envOracle c hm ax cenv "cenv").reverse ++ bad
+        -- the main process: once NEWSENDER has been put (and was not inherited) its environment is the commands' environment
+        if (envL[1]?).getD "!" != "!" && (LocalEnvSpec.lookupEnv ax.inherited [78, 69, 87, 83, 69, 78, 68, 69, 82]).isNone then
+          bad := (envOracle c hm ax fenv "fenv").reverse ++ bad
+      | none => pure ()
       if !bad.isEmpty then
         IO.println s!"ORACLE in={blob} doit={doitS} clause={",".intercalate bad.reverse |>.replace " " "_"} impl_exit={exitS} impl_out={outH} impl_opened={opens} impl_events={events} impl_stats={statsS} impl_files={filesS}"
         st := { st with oracle := st.oracle + 1 }
@@ -397,7 +496,7 @@ def handle (st : Stats) (line : String) : IO Stats := do
         IO.println s!"SAMPLE in={blob} doit={doitS} exit={exitS} opened={opens} events={events}"
         st := { st with samples := st.samples + 1 }
       return st
-    | _, _, _, _ => IO.println s!"DISAGREE unparsable line {line.take 300}"; return { st with disagree := st.disagree + 1 }
+    | _, _, _, _, _, _, _ => IO.println s!"DISAGREE unparsable line {line.take 300}"; return { st with disagree := st.disagree + 1 }
   | _ => IO.println s!"DISAGREE unparsable line {line.take 300}"; return { st with disagree := st.disagree + 1 }
 
 def main : IO Unit := runDriver handle
